@@ -402,7 +402,9 @@ def pushSymbol (st : St) (sym : Name) (stk : Name) : St :=
     let k := stackNameOf st1 stk
     { st1 with stacks := setStack st1.stacks k (e.val :: getStack st1.stacks k) }
 
-/-- `PopSymbol`: the value is written into the node whatever its `Changeable` flag says -/
+/-- `PopSymbol`: the stack is looked up first; a destination that is not `Changeable` and whose value differs from the saved
+one is refused with "constants cannot be redefined as variables" and the stack is left as it is (repair `eb7e93a`; before it
+the value was written whatever the flag said); restoring a constant to the value it already has goes through and pops. -/
 def popSymbol (st : St) (sym : Name) (stk : Name) : St :=
   let (st1, r) := findNode st sym
   match r with
@@ -411,7 +413,9 @@ def popSymbol (st : St) (sym : Name) (stk : Name) : St :=
     let k := stackNameOf st1 stk
     match getStack st1.stacks k with
     | [] => st1.err errStackEmpty
-    | v :: rest => { st1 with tab := tset st1.tab key { e with val := v }, stacks := setStack st1.stacks k rest }
+    | v :: rest =>
+      if e.changeable = false ∧ e.val ≠ v then st1.err errConstantRedefinedAsVariable else
+      { st1 with tab := tset st1.tab key { e with val := v }, stacks := setStack st1.stacks k rest }
 
 /-! ### statements and passes -/
 
